@@ -23,8 +23,12 @@ Definition rm_phase_obs_eqb (p : phase) (o : rm_obs) : bool :=
   | _, _ => false
   end.
 
-(* an empty ping round costs no datagram: it cannot be observed *)
-Definition rm_visible (p : phase) : bool := match p with PPing _ [] => false | _ => true end.
+(* an empty ping round and a refresh without a seed cost no datagram, where the pass ends is not a datagram either *)
+Definition rm_visible (p : phase) : bool :=
+  match p with
+  | PPing _ [] | PRefresh _ [] | PBreak _ | PDone => false
+  | _ => true
+  end.
 
 Fixpoint list_eqb2 {A B : Type} (f : A -> B -> bool) (l : list A) (m : list B) : bool :=
   match l, m with
